@@ -1,6 +1,7 @@
 ------------------------------ MODULE WriterMech ----------------------------
-(* Mech layer: the CSV and HTML writers as the code builds their output      *)
-(* (src/output/csv.rs with the csv crate's default settings, html.rs).       *)
+(* Mech layer: the CSV, HTML and JSON writers as the code builds their       *)
+(* output (src/output/csv.rs with the csv crate's default settings, html.rs, *)
+(* json.rs with serde_json's string escapes).                                *)
 (* A table is a sequence of rows, a row a sequence of cells, a cell a        *)
 (* sequence of characters; the result is the sequence of characters written. *)
 (*   csv   one record per row, fields joined by commas, a field is quoted    *)
@@ -9,6 +10,13 @@
 (*         every record ended by LF                                          *)
 (*   html  <html><body><table>, per row <tr>, per cell <td>text</td> with    *)
 (*         & < > " ' written as entities, </tr>, </table></body></html>      *)
+(*   json  [ rows joined by commas ]; a row is an object built from a        *)
+(*         BTreeMap: one pair per distinct column key (the last column with  *)
+(*         a key wins), keys in byte order; the key of a column is the text  *)
+(*         of its expression (Display), lower-cased on the aggregate and     *)
+(*         grouped paths; strings escape " and \ with a backslash, LF CR TAB *)
+(*         BS FF as \n \r \t \b \f, other characters below U+0020 as     *)
+(*         \u00xx (lower-case hex), everything else is written as it is     *)
 EXTENDS Formats
 
 RECURSIVE Flat(_)
@@ -26,4 +34,25 @@ Escaped(f) == Flat([i \in 1 .. Len(f) |-> Entity(f[i])])
 HtmlTail == <<"<","/","t","a","b","l","e",">","<","/","b","o","d","y",">","<","/","h","t","m","l",">">>
 HtmlRow(row) == <<"<","t","r",">">> \o Flat([j \in 1 .. Len(row) |-> <<"<","t","d",">">> \o Escaped(row[j]) \o <<"<","/","t","d",">">>]) \o <<"<","/","t","r",">">>
 HtmlMech(table) == HtmlHead \o Flat([i \in 1 .. Len(table) |-> HtmlRow(table[i])]) \o HtmlTail
+
+HexL == <<"0","1","2","3","4","5","6","7","8","9","a","b","c","d","e","f">>
+(* ctl: the characters U+0001 .. U+001F as supplied with the record (TLA+ source cannot spell them) *)
+JsonEscC(c, ctl) ==
+  CASE c = "\"" -> <<"\\", "\"">> [] c = "\\" -> <<"\\", "\\">> [] c = "\n" -> <<"\\", "n">> [] c = "\r" -> <<"\\", "r">> [] c = "\t" -> <<"\\", "t">>
+    [] OTHER -> IF \E v \in 1 .. Len(ctl) : ctl[v] = c
+                THEN LET v == CHOOSE v \in 1 .. Len(ctl) : ctl[v] = c IN
+                     IF v = 8 THEN <<"\\", "b">> ELSE IF v = 12 THEN <<"\\", "f">>
+                     ELSE <<"\\", "u", "0", "0", HexL[(v \div 16) + 1], HexL[(v % 16) + 1]>>
+                ELSE <<c>>
+JsonStr(s, ctl) == <<"\"">> \o Flat([i \in 1 .. Len(s) |-> JsonEscC(s[i], ctl)]) \o <<"\"">>
+JsonKey(path, k) == IF path \in {"aggregate", "grouped"} THEN LowerSeq(k) ELSE k
+RECURSIVE SortKeys(_)
+SortKeys(S) == IF S = {} THEN <<>> ELSE LET m == CHOOSE k \in S : \A o \in S : LexLeq(k, o) IN <<m>> \o SortKeys(S \ {m})
+LastWith(keys, k) == CHOOSE i \in 1 .. Len(keys) : keys[i] = k /\ \A j \in i + 1 .. Len(keys) : keys[j] # k
+(* the values of a row in the order the object shows them *)
+JsonRowVals(keys, row) == LET ks == SortKeys({ keys[i] : i \in 1 .. Len(keys) }) IN [n \in 1 .. Len(ks) |-> row[LastWith(keys, ks[n])]]
+JsonRow(keys, row, ctl) ==
+  LET ks == SortKeys({ keys[i] : i \in 1 .. Len(keys) }) IN
+  <<"{">> \o Flat([n \in 1 .. Len(ks) |-> (IF n > 1 THEN <<",">> ELSE <<>>) \o JsonStr(ks[n], ctl) \o <<":">> \o JsonStr(row[LastWith(keys, ks[n])], ctl)]) \o <<"}">>
+JsonMech(keys, table, ctl) == <<"[">> \o Flat([i \in 1 .. Len(table) |-> (IF i > 1 THEN <<",">> ELSE <<>>) \o JsonRow(keys, table[i], ctl)]) \o <<"]">>
 =============================================================================
